@@ -66,7 +66,7 @@ def kind_of_call(h, idx):
 
 
 def replay_of(h, idx=None):
-    r = {"seed": h["seed"], "nv": h["nv"], "active0": h["active0"], "script": h["script"], "labels": h["labels"],
+    r = {"seed": h["seed"], "nv": h["nv"], "active0": h["active0"], "outsider": h.get("outsider", False), "script": h["script"], "labels": h["labels"],
          "how": "./check C20 --replay <this file> re-runs the script against /repo"}
     if idx is not None:
         r["index"] = idx
@@ -81,6 +81,7 @@ def main():
         "requests are explicit index SETS (no index twice; an empty list means the active set, which then must be duplicate-free): the answer theorems carry this hypothesis; requests naming an index twice are only checked for model correspondence (reading note N3)",
         "the three Go maps duties/metadata/requestedIdxs of a duty kind are modelled as one map epoch -> entry (they are only written together under the lock); reading activeValIdxs and the cache read are one atomic label (UpdateActiveValIndices commutes with the cache read)",
         "harness histories can interleave other operations only while a call waits inside its beacon-node request (lookup | beacon request | beacon answer | store are separated; store and return are not); the theorems cover every interleaving of the atomic steps",
+        "consumer layer (validatorapi.Component): not modelled in Coq; the harness compares its answer (multiset of duties after undoing the root-key -> public-share substitution, metadata for proposer/attester) with what the duties cache handed to it, which the model and monitors tie to the beacon node. Unchanged code mirrored: proposer duties of validators unknown to the cluster pass through with the root key, attester/sync duties of an unknown validator fail the request, sync metadata is not forwarded. The scheduler's consumption is covered by C15",
         "not modelled: metrics, logging, the nil-duty error branch, context cancellation",
     ]
     R.proofs()
@@ -96,7 +97,9 @@ def main():
         if h.get("nontrivial"):
             seen.add(vp.digest(h["labels"]))
     R.coverage["distinct_nontrivial"] = len(seen)
-    R.coverage["rule"] = ("histories of calls (explicit subsets, single validators, all, empty = active set; repeats; three duty kinds; several epochs), reorgs, "
+    R.coverage["rule"] = ("histories of calls (explicit subsets, single validators, all, empty = active set; repeats; three duty kinds; several epochs; about a third of the calls made by a validator client "
+                          "through validatorapi.Component ProposerDuties/AttesterDuties/SyncCommitteeDuties wired in front of the same cache, whose answer must equal, after undoing the pubkey-share substitution, "
+                          "what the cache handed to it -- the labels carry the cache-level answer), reorgs, "
                           "InvalidateCache (prompt, delayed, spurious), Trim, UpdateActiveValIndices, caller-side mutation of received answers, callers that keep ONE index buffer with spare capacity "
                           "across calls and rewrite it in place between calls (the request seen by the model is the buffer content at call time), and aliasing probes of outputs and of the request slice against "
                           "eth2wrap.NewDutiesCache with a scripted beacon client in a synctest bubble (kinds: corpus-*, seq = no overlap, conc = calls held inside the beacon request "
@@ -115,6 +118,8 @@ def main():
         "stores_refused": sum(h["refused"] for h in hs),
         "histories_with_overlap": sum(1 for h in hs if h.get("overlap")),
         "alias_probes": sum(sum(1 for o in h["script"] if o["op"] == "probe") for h in hs),
+        "calls_through_validatorapi_component": sum(h.get("vapi_calls", 0) for h in hs),
+        "histories_with_a_validator_outside_the_cluster": sum(1 for h in hs if h.get("outsider")),
         "request_buffer_probes": sum(sum(1 for o in h["script"] if o["op"] == "bufprobe") for h in hs),
         "calls_through_a_reused_caller_buffer": sum(sum(1 for o in h["script"] if o["op"] == "call" and o.get("b")) for h in hs),
     }
@@ -137,6 +142,9 @@ def main():
                 violation("alias:cache:%s" % kind, "the cache's record of requested indices lives in a caller's index slice: the caller reusing its own buffer changes later answers (%s)" % a, h)
             else:
                 violation("alias:cache:%s" % kind, "a caller's mutation of the answer it received is served to the next caller (%s)" % a, h)
+        for a in h.get("consumer") or []:
+            kind = a.split(":", 1)[0]
+            violation("consumer:validatorapi:%s" % kind, "duties served to a validator client through validatorapi.Component differ from what the duties cache (= the beacon node) answers for the request (%s)" % a, h)
         for e in h.get("errors") or []:
             violation("harness-anomaly", e, h)
 
